@@ -30,7 +30,7 @@ LEVEL_TEXT = 'exploration: sampled texts over all (version, segment) cells and m
 LEVEL_NOTE = 'trusted: the C13 lexical reference for leaf validity, the textual prefixes of validator messages'
 
 STRICT, TOL = 1, 2
-OVERLONG = {'ST': 'x' * 200, 'IS': 'x' * 21, 'NM': '1' * 17, 'SI': '12345', 'GTS': 'x' * 200, 'WD': 'x' * 200, 'TN': '5' * 200,
+OVERLONG = {'ST': 'x' * 200, 'IS': 'x' * 21, 'NM': '1' * 17, 'NM#2': '0.0000000000000001', 'SI': '12345', 'GTS': 'x' * 200, 'WD': 'x' * 200, 'TN': '5' * 200,
             'ID': 'x' * 300, 'FT': 'x' * 300, 'TX': 'x' * 300}
 INVALID = {'NM': ['abc', '1e5', '1,5', '--1', 'NaN'], 'SI': ['-1', 'x', '1.5', '1_0'], 'DT': ['20201301', '2020-01-01', '202', '20200230'],
            'TM': ['2500', '12:00', '126', '1260'], 'DTM': ['2020133', '20201301', '2020010125', '2020+1500'], 'TN': ['abc', 'x']}
@@ -43,6 +43,8 @@ def zoo_leaf(v, dt, ec):
         extra.append(st.sampled_from(INVALID[dt]))
     if dt in OVERLONG:
         extra.append(st.just(OVERLONG[dt]))
+    if dt + '#2' in OVERLONG:
+        extra.append(st.just(OVERLONG[dt + '#2']))      # (few significant digits: short in scientific notation, long as written)
     if not extra:
         return base
     return st.one_of(base, base, base, *extra)
